@@ -11,7 +11,6 @@ use soroban_sdk::{Address, Bytes, BytesN, Env, String, Val};
 
 // HARNESS props=C06 tier=quick profile=its shape="set/remove_trusted_chain on an arbitrary chain with arbitrary prior trust; witness chain"
 #[kani::proof]
-#[kani::unwind(164)]
 fn c06_trusted_chain_admin() {
     let c = setup();
     let chain = any::string(2);
@@ -67,7 +66,6 @@ fn announced(env: &Env, hub: &String) -> Option<(String, Message)> {
 
 // HARNESS props=C05,C07 tier=quick profile=its shape="outbound transfer: amount full i128, data present/absent, token registered or not (either manager type), destination trusted or not, gas token arbitrary"
 #[kani::proof]
-#[kani::unwind(164)]
 #[kani::stub(soroban_sdk::token::xc_TokenClient_transfer, spec_transfer)]
 #[kani::stub(soroban_sdk::token::xc_TokenClient_burn, spec_burn)]
 #[kani::stub(soroban_sdk::token::xc_TokenClient_transfer_from, spec_transfer_from)]
@@ -201,7 +199,6 @@ fn c18_deploy_remote(canonical: bool) -> u8 {
 }
 // HARNESS props=C18,C07,C11 tier=quick profile=its_dr shape="deploy_remote_interchain_token: registry entry under the caller's or a foreign (deployer,salt); metadata arbitrary (decimals full u32)"
 #[kani::proof]
-#[kani::unwind(164)]
 #[kani::stub(soroban_sdk::token::xc_TokenClient_name, spec_name)]
 #[kani::stub(soroban_sdk::token::xc_TokenClient_symbol, spec_symbol)]
 #[kani::stub(soroban_sdk::token::xc_TokenClient_decimals, spec_decimals)]
@@ -215,7 +212,6 @@ fn c18_deploy_remote_interchain_token() {
 }
 // HARNESS props=C18,C07,C11 tier=quick profile=its_dr shape="deploy_remote_canonical_token"
 #[kani::proof]
-#[kani::unwind(164)]
 #[kani::stub(soroban_sdk::token::xc_TokenClient_name, spec_name)]
 #[kani::stub(soroban_sdk::token::xc_TokenClient_symbol, spec_symbol)]
 #[kani::stub(soroban_sdk::token::xc_TokenClient_decimals, spec_decimals)]
@@ -230,7 +226,6 @@ fn c18_deploy_remote_canonical_token() {
 
 // HARNESS props=C11,C06 tier=quick profile=its shape="configuration and registry queries on an arbitrary state"
 #[kani::proof]
-#[kani::unwind(164)]
 fn c11_queries() {
     let c = setup();
     let env = c.env.clone();
